@@ -26,15 +26,15 @@ import (
 type Outcome int
 
 const (
-	OK           Outcome = iota // does what it is asked
-	ErrSource                   // error reply, task stays in the source state
-	ErrError                    // error reply, task goes to ERROR
-	Undeliverable               // the Caller returns an error for the MESSAGE
-	Silent                      // no reply ever
-	Dies                        // the task dies (TASK_FAILED), no reply
-	NeverRunning                // launch: accepted but never reports TASK_RUNNING
-	LaunchFails                 // launch: TASK_FAILED instead of TASK_RUNNING
-	SlowLaunch                  // launch: TASK_RUNNING is reported one virtual second after the ACCEPT (an executor that takes its time to come up)
+	OK            Outcome = iota // does what it is asked
+	ErrSource                    // error reply, task stays in the source state
+	ErrError                     // error reply, task goes to ERROR
+	Undeliverable                // the Caller returns an error for the MESSAGE
+	Silent                       // no reply ever
+	Dies                         // the task dies (TASK_FAILED), no reply
+	NeverRunning                 // launch: accepted but never reports TASK_RUNNING
+	LaunchFails                  // launch: TASK_FAILED instead of TASK_RUNNING
+	SlowLaunch                   // launch: TASK_RUNNING is reported one virtual second after the ACCEPT (an executor that takes its time to come up)
 )
 
 func (o Outcome) String() string {
@@ -99,9 +99,9 @@ type Master struct {
 	// Observe is called at every framework call before OnCall (set by World: ownership history).
 	Observe func()
 	// AutoOffers: answer REVIVE (and SUBSCRIBE) with an offer round.
-	AutoOffers bool
-	Reconcile  bool // answer implicit reconciliation with one update per known task
-	launchSeq  int
+	AutoOffers     bool
+	Reconcile      bool // answer implicit reconciliation with one update per known task
+	launchSeq      int
 	SubscribeCount int
 	// HookTerminates: a triggered hook task runs to termination (BASIC_TASK_TERMINATED device event + final status).
 	HookTerminates bool
@@ -158,7 +158,7 @@ func (s *stream) Decode(u encoding.Unmarshaler) error {
 
 type nullResp struct{}
 
-func (nullResp) Close() error                       { return nil }
+func (nullResp) Close() error                      { return nil }
 func (nullResp) Decode(encoding.Unmarshaler) error { return io.EOF }
 
 func (m *Master) rec(c CallRec) *CallRec {
